@@ -19,6 +19,17 @@ Theorem C08_records_out_correct : forall lo hi sz tvs,
 Proof. exact records_out_K2_correct. Qed.
 Print Assumptions C08_records_out_correct.
 
+(* Invalid entries (all bytes 0xFF: FixedStruct::new fails) are dropped at the moment they would
+   be sent and the walk continues; what is sent is the spec of the file without them. *)
+Theorem C08_records_sent_correct : forall bad lo hi sz tvs,
+  0 < sz ->
+  records_sent bad (records_out_K2 lo hi sz tvs)
+  = WDone (map r_fo (stable_sort_by_time
+                       (filter (fun r => negb (bad (r_fo r)))
+                               (filter (rec_keep lo hi) (index_recs sz 0 tvs))))).
+Proof. exact records_sent_K2_correct. Qed.
+Print Assumptions C08_records_sent_correct.
+
 (* the fuel: number of map entries = number of records kept <= number of entries of the file *)
 Theorem C08_walk_fuel : forall lo hi sz tvs,
   0 < sz ->
